@@ -1,2 +1,96 @@
-From Clikit Require Import Base.Prelude.
-Theorem placeholder : True. Proof. exact I. Qed.
+(* C14 - tables render as a rectangle within the terminal and keep every cell's text.
+   The theorems are about Model/Table.v (cells without style tags) and hold for every share-rounding function;
+   textwrap is the concrete model of Model/Wrap.v (WrapLemmas: lines fit, total for widths >= 1, text kept). *)
+From Coq Require Import Lia.
+From Clikit Require Import Base.Prelude Base.Res Model.Markup Model.Wrap Model.Table Proofs.WrapLemmas Proofs.TableLemmas.
+Local Open Scope Z_scope.
+
+(* whenever every column can have one character, fitting succeeds for every list of cells, every column length,
+   every rounding of the shares: no width below one is ever handed to textwrap, the column widths sum to at most
+   the available width, and every line of every (wrapped) cell is at most as wide as its column *)
+Theorem fit_total_and_bounded : forall (share : Z -> Z -> Z -> Z) max_total n cells,
+  (1 <= n)%nat -> Z.of_nat n <= max_total ->
+  exists st, fit share max_total n cells = Ok st /\ zsum (f_cols st) <= max_total /\ length (f_cols st) = n /\
+             Forall (fun row => Forall2 (fun cell c => Forall (fun line => zlen line <= c) (split_on 10%N cell)) row (f_cols st)) (f_rows st).
+Proof.
+  intros share max_total n cells Hn Hg.
+  destruct (fit_spec wrap_lines_fit_lemma wrap_total_lemma share max_total n cells Hn Hg) as (st & F & HI & Hs).
+  exists st. repeat split; [exact F|exact Hs|exact (inv_len _ _ HI)|exact (inv_cells_fit _ _ HI)].
+Qed.
+Print Assumptions fit_total_and_bounded.
+
+(* rendering succeeds for every table, style, width and indentation inside the property's guard *)
+Theorem render_total : forall share s n header rows W ind,
+  (1 <= n)%nat -> Z.of_nat n <= available_width s W ind (Z.of_nat n) -> (length (t_aligns s) <= n)%nat ->
+  exists r, render_table share s n header rows W ind = Ok r.
+Proof. exact (TableLemmas.render_total wrap_lines_fit_lemma wrap_total_lemma). Qed.
+Print Assumptions render_total.
+
+(* the rendered text is a sequence of lines, each the right-stripped form of a line of exactly the table's width
+   (indentation + borders + columns), that width is at most the terminal's, every column has one width in all rows *)
+Theorem table_rect : forall share s n header rows W ind st text,
+  wf_styleb s = true -> (1 <= n)%nat -> 0 <= ind -> rows <> [] ->
+  Z.of_nat n <= available_width s W ind (Z.of_nat n) ->
+  render_table share s n header rows W ind = Ok (st, text) ->
+  (exists ls, text = flat_map (fun l => t_rstrip l ++ [10%N]) ls /\ Forall (fun l => zlen l = full_width s (f_cols st) ind) ls) /\
+  full_width s (f_cols st) ind <= W /\ length (f_cols st) = n.
+Proof.
+  intros share s n header rows W ind st text Hwf Hn Hi Hr Hg H.
+  destruct (TableLemmas.table_rect wrap_lines_fit_lemma wrap_total_lemma share s n header rows W ind st text
+              (wf_styleb_sound s Hwf) Hn Hi Hr Hg H) as (R & Hw & _ & Hl).
+  exact (conj R (conj Hw Hl)).
+Qed.
+Print Assumptions table_rect.
+
+(* every cell keeps its characters in order, white space aside: the wrapped rows are the right-stripped cells
+   of the header and the rows, cell by cell *)
+Theorem table_keeps_text : forall share s n header rows W ind st text,
+  (1 <= n)%nat -> rows <> [] -> Forall (fun r => length r = n) rows -> (header = [] \/ length header = n) ->
+  render_table share s n header rows W ind = Ok (st, text) ->
+  Forall2 (Forall2 (fun wrapped cell => filter (fun c => negb (is_space c)) wrapped = filter (fun c => negb (is_space c)) cell))
+          (f_rows st) (match header with [] => rows | _ => header :: rows end).
+Proof.
+  intros share s n header rows W ind st text Hn Hr Hrows Hh H.
+  pose proof (table_keeps wrap_lines_fit_lemma wrap_keeps_text_lemma share s n header rows W ind st text Hn Hr Hrows Hh H) as K.
+  destruct header as [|h hs]; exact (rows_same_unstrip _ _ K).
+Qed.
+Print Assumptions table_keeps_text.
+
+(* the short / long column split leaves at least one character for every column that stays long *)
+Theorem short_split_leaves_room : forall n max_total cols,
+  0 < n -> n <= max_total -> Forall (fun c => 0 <= c) cols -> Z.of_nat (length cols) = n ->
+  exists av long, short_loop (S (length cols)) n (map Some cols) max_total = Some (av, long) /\
+                  count_some long <= av /\ av = max_total - (zsum cols - sum_some long) /\
+                  Forall (fun o => match o with Some x => 1 <= x | None => True end) long.
+Proof.
+  intros n max_total cols Hn Hg Hnn Hlen.
+  assert (Hl : long_nonneg (map Some cols)) by (unfold long_nonneg; clear -Hnn; induction Hnn; cbn [map]; constructor; auto).
+  destruct (short_loop_spec n max_total Hn (S (length cols)) (map Some cols) max_total Hl ltac:(lia)) as (av & long & SL & R & Ea & J & F).
+  - rewrite count_some_map_Some. nia.
+  - rewrite count_some_map_Some. lia.
+  - exists av, long. rewrite sum_some_map_Some in Ea. pose proof (count_some_nonneg long).
+    repeat split; [exact SL|nia|exact Ea|]. eapply Forall_impl; [|exact F]. intros [x|]; [|auto]. cbn. intros; nia.
+Qed.
+Print Assumptions short_split_leaves_room.
+
+(* ---- the hypotheses are met by concrete, non-trivial values ---- *)
+Definition s_ (l : list N) : str := l.
+Definition ascii_border : bstyle :=
+  {| b_ht := [45%N]; b_hc := [45%N]; b_hb := [45%N]; b_vl := [124%N]; b_vc := [124%N]; b_vr := [124%N];
+     b_tl := [43%N]; b_tr := [43%N]; b_bl := [43%N]; b_br := [43%N]; b_cc := [43%N]; b_cl := [43%N]; b_ct := [43%N]; b_cr := [43%N]; b_cb := [43%N] |}.
+Definition ascii_style : tstyle :=
+  {| t_border := ascii_border; t_hpre := [32%N]; t_hsuf := [32%N]; t_cpre := [32%N]; t_csuf := [32%N]; t_pad := [32%N]; t_aligns := []; t_default := 0 |}.
+Definition none_border : bstyle :=
+  {| b_ht := []; b_hc := [61%N]; b_hb := []; b_vl := []; b_vc := [32%N]; b_vr := [];
+     b_tl := []; b_tr := []; b_bl := []; b_br := []; b_cc := [32%N]; b_cl := []; b_ct := []; b_cr := []; b_cb := [] |}.
+Definition borderless_style : tstyle :=
+  {| t_border := none_border; t_hpre := []; t_hsuf := []; t_cpre := []; t_csuf := []; t_pad := [32%N]; t_aligns := [1; 2]; t_default := 0 |}.
+Example presets_well_formed : wf_styleb ascii_style = true /\ wf_styleb borderless_style = true.
+Proof. split; reflexivity. Qed.
+(* exact half-up rounding of  len / actual * avail  as one instance of the share function *)
+Definition share_exact (len actual avail : Z) : Z := (2 * len * avail + actual) / (2 * actual).
+(* "aaa bbb ccc dd" | "x"   at terminal width 14: the first column is wrapped *)
+Example a_table_that_wraps :
+  exists st text, render_table share_exact ascii_style 2 [] [[[97;97;97;32;98;98;98;32;99;99;99;32;100;100]%N; [120%N]]] 14 0 = Ok (st, text)
+                  /\ f_cols st = [6; 1] /\ f_wraps st = true /\ 2 <= available_width ascii_style 14 0 2.
+Proof. eexists; eexists. split; [vm_compute; reflexivity|]. repeat split; vm_compute; congruence. Qed.
